@@ -60,7 +60,7 @@ func c16Size(r *gen.Rand, big bool) (int, int) {
 func (c16) Build(tier string, seed uint64) []any {
 	var cs []any
 	th := tier == "thorough"
-	per := 6
+	per := 36
 	if th {
 		per = 600
 	}
@@ -128,6 +128,32 @@ func (c16) Build(tier string, seed uint64) []any {
 			}
 			c.W, c.H, c.C, c.P = j.W, j.H, j.C, j.P
 			add(c)
+		}
+	}
+	// (hdrmatrix) the self-description of JPEG 2000 streams over the complete small matrix of
+	// header-relevant arguments: components 1..4 x EnableMCT x signed x reversible/irreversible
+	// x progression order (the COD transform byte must say what was applied)
+	m := 0
+	for comps := 1; comps <= 4; comps++ {
+		for _, mct := range []bool{false, true} {
+			for _, signed := range []bool{false, true} {
+				for _, enc := range []string{"j2k", "j2kirr"} {
+					r := gen.Sub(seed, "C16", "hdrmatrix", m)
+					j := &j2kCase{Gen: "hdrmatrix"}
+					randJ2KConfig(r, j)
+					j.C, j.MCT, j.Signed, j.Prog = comps, mct, signed, m%5
+					j.W, j.H = 5+r.Intn(40), 5+r.Intn(40)
+					if enc == "j2kirr" {
+						j.Quality = 1 + r.Intn(100)
+						j.P = gen.Pick(r, 8, 12, 16)
+						if j.C == 2 || j.C == 4 {
+							j.MCT = false
+						}
+					}
+					m++
+					add(&c16Case{Gen: "hdrmatrix", Enc: enc, J: j, Class: "noise", W: j.W, H: j.H, C: j.C, P: j.P})
+				}
+			}
 		}
 	}
 	// every frame of a multi-frame codec-level Encode (one encoder object may serve all frames)
